@@ -252,7 +252,7 @@ def check(ctx):
     items.append(("n=6: locally rotated table graph states x own and other classes' table graphs, component oracle", pl6))
     for label, payload in items:
         ctx.phase("%s (%d cases)" % (label, len(payload)))
-        nch = min(len(payload), core.NPROC * 8)
+        nch = min(len(payload), core.NPROC * 2)
         res = core.pmap(_work, [payload[k::nch] for k in range(nch)])
         for cnt, nontriv, fails in res:
             ctx.count("evaluations", cnt)
